@@ -123,6 +123,8 @@ type C09RObs struct {
 	Method   string            `json:"method,omitempty"`
 	Params   map[string]string `json:"params,omitempty"`
 	Err      string            `json:"err,omitempty"`
+	// the route names a server under which the request does not lie
+	ServerBad string `json:"route_server_does_not_match,omitempty"`
 }
 type C09Obs struct {
 	Legacy  C09RObs `json:"legacy"`
@@ -207,6 +209,15 @@ func c09Find(r routers.Router, c *C09Case) C09RObs {
 	}
 	if route.Operation == nil {
 		o.Kind, o.Err = 4, "route without operation"
+	}
+	if route.Server != nil && len(c.Servers) > 1 {
+		// "the matched server": when the route names one, the request lies under it - and under no other declared
+		// server does it lie as well (the generated servers never extend one another)
+		plain := *u
+		plain.RawQuery, plain.ForceQuery, plain.Fragment = "", false, ""
+		if _, _, ok := route.Server.MatchRawURL(plain.String()); !ok {
+			o.ServerBad = fmt.Sprintf("the route's server is %s, the request is %s", route.Server.URL, plain.String())
+		}
 	}
 	return o
 }
@@ -530,6 +541,13 @@ func init() {
 			if o.Build != "" {
 				meta.Histogram["not_built"]++
 				continue
+			}
+			for rname, ro := range map[string]C09RObs{"legacy": o.Legacy, "gorilla": o.Gorilla} {
+				if ro.ServerBad != "" {
+					meta.Histogram["oracle:route-server"]++
+					meta.GoViolation = append(meta.GoViolation, map[string]any{"signature": "route-server:request-not-under-the-server-the-route-names:" + rname, "cases": []any{c}, "go_observation": ro.ServerBad,
+						"judgement": "the " + rname + " router returned a route whose Server the request does not lie under: " + ro.ServerBad})
+				}
 			}
 			terms = append(terms, c09Coq(c, &o))
 			idx = append(idx, i)
